@@ -173,6 +173,9 @@ class Gen:
                     out.append('//@ skipblock')
                 elif as_stub and s.startswith('//@ fn '):
                     out.append(ln.replace('//@ fn ', '//@ stub ', 1))
+                elif as_stub and (s.startswith('//@ identcount ') or s.startswith('//@ census ')):
+                    # syntactic census obligations belong to the unit that proves the functions they talk about
+                    continue
                 else:
                     out.append(ln)
         res = []
@@ -523,6 +526,8 @@ class Gen:
         props = [p for p in opts.pop('props', '').split(',') if p]
         root = opts.pop('root', 'abasic-core/src')
         expected = {k: int(v) for k, v in opts.items() if k.endswith('.rs')}
+        ignore = set(x for x in opts.pop('ignore', '').split(',') if x)     # files another unit's directive accounts for
+        partial = 'partial' in opts                                         # only the listed files are looked at
         base = os.path.join(self.repo, root)
         seen = {}
         for dp, _, files in os.walk(base):
@@ -540,6 +545,8 @@ class Gen:
                     seen[rel] = n
         files = sorted(set(seen) | set(expected))
         for rel in files:
+            if rel in ignore or (partial and rel not in expected):
+                continue
             want = expected.get(rel, 0)
             got = seen.get(rel, 0)
             self.syntactic.append(('crate', 'census/%s-occurs-%d-times-in-%s' % (ident, want, rel), got == want,
